@@ -24,6 +24,10 @@ def _entry_wf(where, entry, check_typ_parses=True, source_text=None):
 
             verbatim = (source_text is not None and known_active("F17") and len(t) > 0 and "\n\n" not in t
                         and t.strip() in source_text.replace("```", ""))
+            if (not verbatim and source_text is not None and known_active("F17") and t.strip() == ""
+                    and (":\n" in source_text or ": \n" in source_text or source_text.rstrip(" ").endswith(":"))):
+                verbatim = True  # F17, empty variant: a field whose type text is empty ('a :' + newline) yields typ ''
+
             # known finding F17: type text copied verbatim from one line of the docstring is never validated
             if not verbatim:
                 try:
